@@ -248,6 +248,8 @@ def named_family():
     out.append(copy.deepcopy(shop2))
     # record fields whose union holds a string branch next to a float/double branch (number-like words are strings)
     out.append(rec("R", ["string", "double"], ["null", "string", "float"], ["double", "string"]))
+    out.append(rec("R", ["double", "string"]))
+    out.append(rec("R", ["float", "string"], "int"))
     # record branches that differ only in the item type of an array field (an item-wise check must look at every item)
     narrow = {"type": "record", "name": "Narrow", "fields": [{"name": "vals", "type": {"type": "array", "items": "int"}}]}
     wide = {"type": "record", "name": "Wide", "fields": [{"name": "vals", "type": {"type": "array", "items": "long"}}]}
